@@ -40,7 +40,7 @@ def shards(tier):
     out = []
     for (n, b, mode, pals) in (LEVELS_QUICK if tier == "quick" else LEVELS_THOROUGH):
         topos = sp.topologies(n, b)
-        allk = [kt for kt in itertools.product(dyn.DK, repeat=b) if dyn.admissible(kt)]
+        allk = dyn.kind_tuples(b)
         per = max(1, 600 // (2 ** b * len(c10.id_lists(b, mode)) * len(pals)))
         for ti in range(len(topos)):
             for ch in sp.chunks(range(len(allk)), per):
